@@ -32,6 +32,10 @@ pub struct RtCase {
     pub builder_order: u8,
     /// rounds: (handler delays of the concurrent requests: false = at once, true = 70 ms; pause after the round: 0 / 5 / 70 ms)
     pub rounds: Vec<(Vec<bool>, u8)>,
+    /// HTTP/2 requests to an auto-detecting server: one multiplexed connection carries them all for as
+    /// long as it is used more often than every idle_timeout (C04)
+    #[serde(default)]
+    pub h2: bool,
 }
 
 struct OpenGuard(Arc<AtomicUsize>);
@@ -110,8 +114,15 @@ impl RtPoolEngine {
                         }))
                     }
                 });
-                let server = hyperdriver::Server::builder::<hyperdriver::Body>().with_incoming(incoming).with_http1().with_make_service(make).with_tokio();
-                let server = tokio::spawn(async move { server.await.map_err(|e| e.to_string()) });
+                let base = hyperdriver::Server::builder::<hyperdriver::Body>().with_incoming(incoming);
+                let server = if c2.h2 {
+                    let server = base.with_auto_http().with_make_service(make).with_tokio();
+                    tokio::spawn(async move { server.await.map_err(|e| e.to_string()) })
+                } else {
+                    let server = base.with_http1().with_make_service(make).with_tokio();
+                    tokio::spawn(async move { server.await.map_err(|e| e.to_string()) })
+                };
+                let h2 = c2.h2;
                 let mut cfg = hyperdriver::client::pool::Config::default();
                 cfg.idle_timeout = c2.idle_timeout_ms.map(|t| Duration::from_millis(t as u64));
                 cfg.max_idle_per_host = c2.max_idle as usize;
@@ -163,7 +174,7 @@ impl RtPoolEngine {
                             let issued = Instant::now();
                             let req = http::Request::builder()
                                 .method("GET")
-                                .version(http::Version::HTTP_11)
+                                .version(if h2 { http::Version::HTTP_2 } else { http::Version::HTTP_11 })
                                 .uri(format!("http://rt.test/r/{id}{}", if slow { "/slow" } else { "" }))
                                 .body(hyperdriver::Body::empty())
                                 .unwrap();
@@ -236,8 +247,31 @@ impl RtPoolEngine {
                         rep.class("pause-longer-than-idle-timeout");
                     }
                 }
+                // ---- C04: an HTTP/2 connection that is used again and again stays the one connection of its
+                // origin, however old it grows. The pool stamps it at some instant between `issued` and
+                // `finished` of each request: if every request finished less than idle_timeout after the
+                // previous one was issued, it was never idle for that long (one-sided: under load the gaps
+                // grow and the rule stays silent).
+                if c.h2 {
+                    let mut by_issue = used.clone();
+                    by_issue.sort_by_key(|u| u.2);
+                    let frequent = match c.idle_timeout_ms.filter(|t| *t > 0) {
+                        None => true,
+                        Some(t) => by_issue.windows(2).all(|w| w[1].3.duration_since(w[0].2) + Duration::from_millis(30) < Duration::from_millis(t as u64)),
+                    };
+                    if frequent {
+                        rep.class("h2-connection-used-more-often-than-the-idle-timeout");
+                        let age = by_issue.last().zip(by_issue.first()).map(|(l, f)| l.2.duration_since(f.2)).unwrap_or_default();
+                        if c.idle_timeout_ms.map(|t| t > 0 && age > Duration::from_millis(t as u64)).unwrap_or(false) {
+                            rep.class("h2-connection-older-than-the-idle-timeout");
+                        }
+                        if total > 1 {
+                            rep.violate("C04/e2e-h2-connection-replaced-although-in-use", format!("{c:?}: {total} connections were opened for HTTP/2 requests that followed one another within the idle timeout (first to last request {age:?}); uses: {:?}", by_issue.iter().map(|u| (u.0, u.1)).collect::<Vec<_>>()));
+                        }
+                    }
+                }
                 // ---- C15: at quiescence at most max_idle connections are kept
-                if open_now > c.max_idle as usize {
+                if !c.h2 && open_now > c.max_idle as usize {
                     rep.violate("C15/e2e-idle-bound-exceeded-at-quiescence", format!("{c:?}: {open_now} of {total} connections are still open while nothing is in flight, max_idle_per_host = {}", c.max_idle));
                 }
                 if total >= 2 {
@@ -267,5 +301,19 @@ pub fn strategy() -> impl proptest::strategy::Strategy<Value = RtCase> {
         0u8..3,
         proptest::collection::vec((proptest::collection::vec(prop_oneof![2 => Just(false), 1 => Just(true)], 1..=3), 0u8..3), 1..5),
     )
-        .prop_map(|(idle_timeout_ms, max_idle, client_timeout_ms, cont, builder_order, rounds)| RtCase { idle_timeout_ms, max_idle, client_timeout_ms, cont, builder_order, rounds })
+        .prop_map(|(idle_timeout_ms, max_idle, client_timeout_ms, cont, builder_order, rounds)| RtCase { idle_timeout_ms, max_idle, client_timeout_ms, cont, builder_order, rounds, h2: false })
+}
+
+/// HTTP/2 rounds under an idle timeout of 250 ms (or none): gaps of at most ~145 ms between uses, up to
+/// five rounds - the connection grows older than the timeout while it is never idle for that long.
+pub fn h2_strategy() -> impl proptest::strategy::Strategy<Value = RtCase> {
+    use proptest::prelude::*;
+    (
+        prop_oneof![1 => Just(None), 5 => Just(Some(250u8))],
+        prop_oneof![Just(1u8), Just(2u8), Just(8u8)],
+        any::<bool>(),
+        0u8..3,
+        proptest::collection::vec((proptest::collection::vec(prop_oneof![1 => Just(false), 1 => Just(true)], 1..=3), prop_oneof![1 => Just(1u8), 3 => Just(2u8)]), 3..6),
+    )
+        .prop_map(|(idle_timeout_ms, max_idle, cont, builder_order, rounds)| RtCase { idle_timeout_ms, max_idle, client_timeout_ms: None, cont, builder_order, rounds, h2: true })
 }
